@@ -270,15 +270,25 @@ class NakPdu(AbstractFileDirectiveBase):
             data[current_idx : current_idx + struct_arg_tuple[1]],
         )[0]
         current_idx += struct_arg_tuple[1]
-        if current_idx < len(data):
-            packet_size_check = (len(data) - current_idx) % (struct_arg_tuple[1] * 2)
+        if len(data) > nak_pdu.packet_len:
+            raise ValueError(
+                f"Passed data with length {len(data)} is longer than the NAK PDU with "
+                f"length {nak_pdu.packet_len}"
+            )
+        end_of_segment_req_idx = nak_pdu.packet_len
+        if nak_pdu.pdu_file_directive.pdu_conf.crc_flag == CrcFlag.WITH_CRC:
+            end_of_segment_req_idx -= 2
+        if current_idx < end_of_segment_req_idx:
+            packet_size_check = (end_of_segment_req_idx - current_idx) % (
+                struct_arg_tuple[1] * 2
+            )
             if packet_size_check != 0:
                 raise ValueError(
                     "Invalid size for remaining data, "
                     f"which should be a multiple of {struct_arg_tuple[1] * 2}"
                 )
             segment_requests = []
-            while current_idx < len(data):
+            while current_idx < end_of_segment_req_idx:
                 start_of_segment = struct.unpack(
                     struct_arg_tuple[0],
                     data[current_idx : current_idx + struct_arg_tuple[1]],
